@@ -1,12 +1,12 @@
 SPECIFICATION MCSpec
 CONSTANTS
   Id = {1, 2, 3}
-  TopT = 7
-  InsTS = {0, 1, 2}
-  Walls = {1, 3}
+  TopT = 8
+  InsTS = {0, 1, 2, 3}
+  Walls = {0, 1, 2, 4}
   Modes = {"now", "top"}
   MaxSteps = 0
-  MaxExt = 2
+  MaxExt = 3
   MaxSeq = 3
   ClockMoves = TRUE
 INVARIANTS
